@@ -63,7 +63,7 @@ static_assert(sizeof(code_names) / sizeof(code_names[0]) == NCODES);
 template <typename T, std::size_t N>
 struct SS {
     using V                  = etl::static_set<T, N>;
-    static constexpr bool CP = copyable<kind_of<T>::value>;
+    static constexpr bool CP = std::is_copy_constructible_v<T>;
     static constexpr bool MA = std::is_move_assignable_v<etl::static_vector<T, N>>;
 
     static void refill(V& x, std::uint32_t raw, int val, Hist& h, char const* who)
@@ -326,7 +326,7 @@ template <typename T, std::size_t N>
 struct FS {
     using C                  = etl::static_vector<T, N>;
     using V                  = etl::flat_set<T, C>;
-    static constexpr bool CP = copyable<kind_of<T>::value>;
+    static constexpr bool CP = std::is_copy_constructible_v<T>;
     static constexpr bool MA = std::is_move_assignable_v<C>;
 
     static auto make_cont(std::vector<int> const& keys) -> C
